@@ -152,6 +152,16 @@ func c30IncrRun(s *c30Scratch, file *syntax.File, whole, watchdog bool) (res c30
 		res = x.result(errText, pn)
 		if pn == "" {
 			trapSet = c30ExitTrap(x.r) != ""
+			if trapSet && !whole && !res.Exited {
+				// What the variables become once the pending EXIT trap has
+				// run (an empty whole-file Run triggers it): used only to
+				// tell whether a Vars difference is the trap's doing.
+				if _, pn2 := x.runNode(ctx, &syntax.File{}); pn2 == "" {
+					res.varsAfterTrap = x.s.norm(c30DumpVars(x.r.Vars))
+				}
+				x.out.take()
+				x.err.take()
+			}
 		}
 	}
 	if !watchdog {
@@ -231,7 +241,12 @@ func c30Incr(c *vc.Ctx, t c30Case) *vc.Fail {
 			d = append(d, "status")
 		}
 		if w1.Vars != inc.Vars {
-			c.Count("incr_vars_differ_under_exit_trap", 1)
+			// tolerated only when running the pending trap accounts for it
+			if w1.Vars == inc.varsAfterTrap {
+				c.Count("incr_vars_differ_by_exit_trap", 1)
+			} else {
+				d = append(d, "vars")
+			}
 		}
 	} else {
 		d = c30DiffFields(inc, w1)
